@@ -916,12 +916,26 @@ func genC19(r *RNG, tier string) []Case {
 		body := append([]byte{byte(r.Intn(2))}, sidb...)
 		body = append(body, leBytes(gno, 8)...)
 		body = append(body, r.Bytes(r.Pick(0, 0, 16))...)
+		// the format description of the master: 5.6 announces a 25-byte GTID post-header, 5.7 / 8.0 one of 42 bytes
+		// (logical timestamps after the GNO) - the identifier sits in the same place
+		var hsTab []byte
+		switch i % 3 {
+		case 1:
+			hsTab = make([]byte, 40)
+			hsTab[32] = 42
+			body = append(append([]byte{byte(r.Intn(2))}, sidb...), leBytes(gno, 8)...)
+			body = append(body, 2)
+			body = append(body, r.Bytes(16)...)
+		case 2:
+			hsTab = make([]byte, 35)
+			hsTab[32] = 25
+		}
 		ev := append(make([]byte, hl), body...)
 		ev[4] = 33
-		line := fmt.Sprintf("gtid56ev f=%d:0:%s b=%s", hl, "", hx(ev))
+		line := fmt.Sprintf("gtid56ev f=%d:0:%s b=%s", hl, hx(hsTab), hx(ev))
 		simple(line, "gtid-event", func() string {
 			e := replication.NewMysql56BinlogEvent(exact(ev))
-			g, _, err := e.GTID(replication.BinlogFormat{HeaderLength: byte(hl)})
+			g, _, err := e.GTID(replication.BinlogFormat{HeaderLength: byte(hl), HeaderSizes: hsTab})
 			if err != nil {
 				return "err"
 			}
